@@ -320,7 +320,10 @@ package chain
 //@   nopanic
 //@   callbacks pure
 //@   requires txn != nil
-//@   cbrequires updateElementProof [in-accumulator] : arg0 != nil && arg0.LeafIndex < numLeaves && arg0.LeafIndex != types.UnassignedLeafIndex
+//@   cbrequires updateElementProof [in-accumulator] : derefarg(0).LeafIndex < numLeaves && derefarg(0).LeafIndex != types.UnassignedLeafIndex
+// ... and only ever elements of the transaction itself (or of a storage proof it refers to), never
+// a local copy: the update has to land in the transaction
+//@   cbrequires updateElementProof [in-place] : !arglocal(0)
 //@   loop "range txn.SiacoinInputs"
 //@     invariant txn == old(txn) && len(txn.SiacoinInputs) == old(len(txn.SiacoinInputs)) && len(txn.SiafundInputs) == old(len(txn.SiafundInputs)) && len(txn.FileContractRevisions) == old(len(txn.FileContractRevisions)) && len(txn.FileContractResolutions) == old(len(txn.FileContractResolutions))
 //@     invariant [iff] valid <==> (forall k int :: { old(txn.SiacoinInputs[k]) } 0 <= k && k <= rangeindex ==> inAcc(old(txn.SiacoinInputs[k].Parent.StateElement), numLeaves))
